@@ -127,6 +127,9 @@ def check_one(ctx, spec, Asm, built, A, sabs, frontend):
     ops = set()
     for t in spec["terms"]:
         gf.ast_ops(t, ops)
+    for v in spec.get("lets", []):
+        gf.ast_ops(v["expr"], ops)
+    ctx.flag("user_let" if spec.get("lets") else None)
     ctx.flag("dim%d" % spec["dim"], "arity%d" % spec["arity"], spec["kind"], "frontend_" + frontend,
              "vector_bfuns" if spec.get("comps") else None, "two_space" if spec.get("spaces") else None,
              "nonsquare_components" if spec.get("comps") and len(set(spec["comps"])) > 1 else None,
